@@ -212,9 +212,29 @@ impl Property for C38 {
                     // a settings text that parses but is refused (value out of range): nothing of
                     // it may stick to the thread
                     trace.push("legacy-settings-refused".into());
+                    // reads through the thread-local API before and after: the refused text may
+                    // leave no trace in what the next legacy call sees
+                    let legacy_read = |arts: &Vec<(Fmt, Vec<u8>, Value, Result<Report, String>)>| -> Option<Value> {
+                        let (f, b, _, _) = arts.first()?;
+                        #[allow(deprecated)]
+                        let r = Reader::from_stream(f.mime(), std::io::Cursor::new(b.clone()));
+                        Some(as_value(&r.map(|r| Report::from_reader(&r)).map_err(|e| err_kind(&e))))
+                    };
+                    let before = legacy_read(&arts);
                     #[allow(deprecated)]
                     let res = c2pa::Settings::from_toml("version = 1\n[verify]\nverify_trust = false\nverify_after_sign = false\n[core]\nmax_decompressed_manifest_size_in_mb = 99999999\n");
                     out.probe(if res.is_err() { "refused-settings-rejected" } else { "refused-settings-accepted" });
+                    if res.is_err() {
+                        let after = legacy_read(&arts);
+                        if before != after {
+                            if let (Some(b0), Some(a0)) = (&before, &after) {
+                                out.violate(i as u64, "refused-settings-leave-state-behind", "C38 results never depend on state left behind by an earlier (here: failed) operation",
+                                    json!({"history": trace, "first_difference": first_diff(b0, a0, "")}));
+                            }
+                        } else {
+                            out.probe("refused-settings-left-no-trace");
+                        }
+                    }
                     if res.is_ok() {
                         // accepted after all: put the defaults back like the other settings operation
                         #[allow(deprecated)]
